@@ -115,7 +115,7 @@ PROPS["C13"] = {"components": ["plugin"], "monitor_props": ["C13"], "trusted_bas
     "assumptions": ["tower behaviour is constant while a retrier runs (the scenarios change it only at stable points)",
                     "an idle retrier implies status unreachable (holds in every compared state after fix 4463be4; hypothesis of manual_retry_documented_states)"],
     "partial": "proved for every event history: a tower shown reachable has nothing pending (listing and file), the pending listing is the file; delivery after recovery incl. after a subscription renewal; the manual-retry gate. Real-time clauses (delivery within the configured delays, request rate) are measured on the real binary with tolerances, not proved; 'at no time two retry loops for one tower' is a theorem of the small-step model of the retry manager (never_two_retry_loops, every interleaving of messages, manager iterations and task completions), tied to the source by the extracted call sites of tokio::spawn / start / set_status, not by a differential run of the manager alone; the timed auto-retry scenarios are monitor-only (not compared with the stable-point model)."}
-PROPS["C14"] = {"components": ["plugin"], "monitor_props": ["C14"], "trusted_base": TB_PLUGIN + [
+PROPS["C14"] = {"components": ["plugin", "client"], "monitor_props": ["C14"], "trusted_base": TB_PLUGIN + [
         "signature verification and recovery are the abstract scheme of C17; replies reach the model already classified (wrong signer / unparsable / ...)"],
     "assumptions": ["the classification of a reply by net::http (process_post_response, send_appointment) is total and panic-free: checked on the real binary for every reply kind of the scenarios (monitor no_answer), not proved for all byte strings"],
     "partial": "what the client does with each class of reply is proved; that no byte string makes the parsing layer itself panic is tested (non-JSON, wrong shape, empty, error objects, undecodable signature, wrong signer), not proved."}
